@@ -144,6 +144,19 @@ def dclass(n, length, closed):
     return "live-stdio" if n < 3 else ("live-preopen" if n == 3 else "live-opened")
 
 
+def root_cause_key(kind, call, cls, extra=""):
+    """one key per root cause (DESIGN §6 #10, #11), specific keys for anything else"""
+    if kind in ("doubleFree", "useAfterFree") and cls.startswith("closed"):
+        return "dangling-path-after-fd_close"
+    if kind == "nullDeref":
+        return "null-path-deref"
+    if kind == "not-ebadf":
+        if extra:
+            return "ebadf-precedence-fd_seek-bad-whence"
+        return "closed-descriptor-not-ebadf"
+    return f"{kind}:{call}:{cls}"
+
+
 def judge_real(h, lines, end):
     """Property verdicts on the real run of history h.  Returns list of (key, what, op index)."""
     length, closed = 4, set()
@@ -162,7 +175,7 @@ def judge_real(h, lines, end):
             if end.startswith("E died"):
                 kind = end.split()[2]
                 cls = (dead or classes or ["-"])[0]
-                verdicts.append((f"{kind}:{call}",
+                verdicts.append((root_cause_key(kind, call, cls),
                                  f"{call} on a {cls} descriptor aborts in the sanitizer ({kind}, {end.split()[3]})", i))
             break
         line = lines[i]
@@ -173,7 +186,7 @@ def judge_real(h, lines, end):
             extra = ""
             if call == "fd_seek" and meta["args"][2] > 2:
                 extra = "-invalid-whence"
-            verdicts.append((f"not-ebadf:{call}{extra}",
+            verdicts.append((root_cause_key("not-ebadf", call, dead[0], extra),
                              f"{call}{extra} on a {dead[0]} descriptor returns {errno} instead of EBADF (8)", i))
         # bookkeeping from what the real code answered
         if errno == 0 and call == "path_open":
@@ -181,6 +194,32 @@ def judge_real(h, lines, end):
         if errno == 0 and call == "fd_close" and fds[0] < length:
             closed.add(fds[0])
     return verdicts, stats
+
+
+def hist_of_lines(lines):
+    h = wo.Hist()
+    h.lines = list(lines)
+    h.meta = []
+    for l in h.lines:
+        p = l.split()
+        if p and p[0] in ("p1", "un"):
+            args = [int(x) for x in p[2:]]
+            h.meta.append({"call": p[1], "abi": p[0], "fds": [args[i] for i in wo.FD_ARGS.get(p[1], [])], "args": args})
+        else:
+            h.meta.append(None)
+    return h
+
+
+def corpus():
+    """minimised past failures (tools/corpus/C13/*.json); they run first"""
+    d = os.path.join(vlib.TOOLS, "corpus", PROP)
+    out = []
+    if os.path.isdir(d):
+        for fn in sorted(os.listdir(d)):
+            if fn.endswith(".json"):
+                r = json.load(open(os.path.join(d, fn)))
+                out.append(("corpus:" + r.get("name", fn), hist_of_lines(r["history"])))
+    return out
 
 
 def compare(h, real, model):
@@ -252,7 +291,8 @@ def run(tier):
     with vlib.scratch("c13-") as d:
         repo = vlib.copy_repo(os.path.join(d, "repo"))
         exe = wo.build(repo, d)
-        tagged = systematic(chk.rng)
+        tagged = corpus() + systematic(chk.rng)
+        chk.coverage["regression_corpus"] = len([t for t, _ in tagged if t.startswith("corpus:")])
         n_rand = 400 if tier == "quick" else 8000
         for _ in range(n_rand):
             tagged.append(("random", random_history(chk.rng)))
@@ -266,7 +306,7 @@ def run(tier):
         seen_keys = {}
         n_mismatch = 0
         for idx, ((tag, h), r) in enumerate(zip(tagged, real)):
-            tag_hist[tag] = tag_hist.get(tag, 0) + 1
+            tag_hist[tag.split(":")[0]] = tag_hist.get(tag.split(":")[0], 0) + 1
             verdicts, stats = judge_real(h, r[0], r[1])
             for call, cls, errno in stats:
                 op_hist[call] = op_hist.get(call, 0) + 1
@@ -316,16 +356,7 @@ def replay(path):
     if "history" not in r:
         print("replay file names a broken obligation/correspondence, not a history:", json.dumps(r.get("broken"), indent=1)[:3000])
         return 1
-    h = wo.Hist()
-    h.lines = r["history"]
-    h.meta = []
-    for l in h.lines:
-        p = l.split()
-        if p[0] in ("p1", "un"):
-            args = [int(x) for x in p[2:]]
-            h.meta.append({"call": p[1], "abi": p[0], "fds": [args[i] for i in wo.FD_ARGS.get(p[1], [])], "args": args})
-        else:
-            h.meta.append(None)
+    h = hist_of_lines(r["history"])
     with vlib.scratch("c13r-") as d:
         repo = vlib.copy_repo(os.path.join(d, "repo"))
         exe = wo.build(repo, d)
@@ -336,4 +367,4 @@ def replay(path):
     verdicts, _ = judge_real(h, lines, end)
     for k, what, _ in verdicts:
         print("VIOLATES:", k, "-", what)
-    return 1 if any(k == r.get("key") for k, _, _ in verdicts) or (verdicts and r.get("key") not in [k for k, _, _ in verdicts]) else 0
+    return 1 if verdicts else 0
